@@ -25,8 +25,9 @@ pub enum K {
     Leaf(String),
     Arr(Vec<N>),
     Inl(Vec<(String, N)>),
-    /// (entries, exists only through its entries: created by dotted keys / implicit super-table)
-    Tab(Vec<(String, N)>, bool),
+    /// (entries, 0 = defined by its own header / through the API, 1 = implicit super-table of headers, 2 = created by
+    /// dotted keys); kinds 1 and 2 exist only through their entries
+    Tab(Vec<(String, N)>, u8),
     Aot(Vec<N>),
 }
 impl N {
@@ -80,8 +81,9 @@ fn from_model(n: &Node, path: &mut Path, marks: &BTreeSet<String>) -> N {
                 .collect();
             match n.origin {
                 Origin::InlineTable => K::Inl(kids),
-                Origin::DottedTable | Origin::ImplicitTable => K::Tab(kids, true),
-                _ => K::Tab(kids, false),
+                Origin::DottedTable => K::Tab(kids, 2),
+                Origin::ImplicitTable => K::Tab(kids, 1),
+                _ => K::Tab(kids, 0),
             }
         }
         Val::Array(a) => {
@@ -111,7 +113,7 @@ fn from_model(n: &Node, path: &mut Path, marks: &BTreeSet<String>) -> N {
 /// stay in the reference tree (a later conversion to a value makes them visible again) but are not compared
 fn visible(n: &N) -> bool {
     match &n.k {
-        K::Tab(e, true) => e.iter().any(|(_, v)| visible(v)),
+        K::Tab(e, k) if *k > 0 => e.iter().any(|(_, v)| visible(v)),
         K::Aot(a) => !a.is_empty(),
         _ => true,
     }
@@ -256,12 +258,12 @@ impl NewVal {
             NewVal::Str => N::leaf("s\"n\""),
             NewVal::Arr => N { mark: None, k: K::Arr(vec![N::leaf("i8"), N::leaf("i9")]) },
             NewVal::Inl => N { mark: None, k: K::Inl(z) },
-            NewVal::Tab => N { mark: None, k: if inside_value { K::Inl(z) } else { K::Tab(z, false) } },
+            NewVal::Tab => N { mark: None, k: if inside_value { K::Inl(z) } else { K::Tab(z, 0) } },
             NewVal::Aot => {
                 if inside_value {
                     N { mark: None, k: K::Arr(vec![N { mark: None, k: K::Inl(z) }]) }
                 } else {
-                    N { mark: None, k: K::Aot(vec![N { mark: None, k: K::Tab(z, false) }]) }
+                    N { mark: None, k: K::Aot(vec![N { mark: None, k: K::Tab(z, 0) }]) }
                 }
             }
         }
@@ -280,6 +282,10 @@ pub enum Op {
     ArrInsert(Path, usize, i64),
     ArrReplace(Path, usize, i64),
     ArrRemove(Path, usize),
+    /// `Array::retain` keeping only the elements at even positions / nothing
+    ArrRetainEven(Path),
+    ArrRetainNone(Path),
+    ArrClear(Path),
     AotPush(Path),
     /// `ArrayOfTables::extend` with three new tables
     AotExtend3(Path),
@@ -370,7 +376,13 @@ fn enumerate_ops(root: &N) -> Vec<Op> {
                         ops.push(Op::Insert(p.clone(), k.clone(), NewVal::Tab));
                     }
                 }
-                if e.iter().all(|(_, v)| v.is_value()) && e.len() >= 2 {
+                fn sortable(v: &N) -> bool {
+                    match &v.k {
+                        K::Tab(ee, 2) => ee.iter().all(|(_, x)| sortable(x)),
+                        _ => v.is_value(),
+                    }
+                }
+                if e.iter().all(|(_, v)| sortable(v)) && e.len() >= 1 {
                     ops.push(Op::SortValues(p.clone()));
                 }
                 if !e.is_empty() {
@@ -378,7 +390,7 @@ fn enumerate_ops(root: &N) -> Vec<Op> {
                 }
                 if !p.is_empty() {
                     match &n.k {
-                        K::Tab(_, false) if e.iter().all(|(_, v)| all_values(v)) && !matches!(p.last(), Some(Seg::Idx(_))) => {
+                        K::Tab(_, 0) if e.iter().all(|(_, v)| all_values(v)) && !matches!(p.last(), Some(Seg::Idx(_))) => {
                             ops.push(Op::IntoInline(p.clone()));
                             ops.push(Op::MakeValue(p.clone()));
                         }
@@ -405,6 +417,9 @@ fn enumerate_ops(root: &N) -> Vec<Op> {
                     }
                     if !a.is_empty() {
                         ops.push(Op::Fmt(p.clone()));
+                        ops.push(Op::ArrRetainEven(p.clone()));
+                        ops.push(Op::ArrRetainNone(p.clone()));
+                        ops.push(Op::ArrClear(p.clone()));
                     }
                 }
                 if !a.is_empty() && a.iter().all(|x| matches!(x.k, K::Inl(_))) && !inside_value(root, &p[..p.len().saturating_sub(1)]) && !matches!(p.last(), Some(Seg::Idx(_))) {
@@ -493,8 +508,18 @@ fn apply_model(root: &mut N, op: &Op) -> BTreeSet<String> {
         }
         Op::SortValues(p) => {
             let t = get_mut(root, p);
-            let (K::Inl(e) | K::Tab(e, _)) = &mut t.k else { panic!() };
-            e.sort_by(|a, b| a.0.cmp(&b.0));
+            fn sort_rec(n: &mut N) {
+                if let K::Inl(e) | K::Tab(e, _) = &mut n.k {
+                    e.sort_by(|a, b| a.0.cmp(&b.0));
+                    for (_, v) in e.iter_mut() {
+                        // (sort_values follows the tables that dotted keys created: they are part of the same section)
+                        if matches!(v.k, K::Tab(_, 2)) {
+                            sort_rec(v);
+                        }
+                    }
+                }
+            }
+            sort_rec(t);
             // an inline table is one token: its own line changes
             if let Some(m) = &t.mark {
                 if matches!(t.k, K::Inl(_)) {
@@ -555,16 +580,34 @@ fn apply_model(root: &mut N, op: &Op) -> BTreeSet<String> {
             sub(&a[*i], &mut touched);
             a.remove(*i);
         }
+        Op::ArrRetainEven(p) | Op::ArrRetainNone(p) | Op::ArrClear(p) => {
+            let t = get_mut(root, p);
+            if let Some(m) = &t.mark {
+                touched.insert(m.clone());
+            }
+            let K::Arr(a) = &mut t.k else { panic!() };
+            let keep_even = matches!(op, Op::ArrRetainEven(_));
+            let mut i = 0;
+            let old = std::mem::take(a);
+            for x in old {
+                if keep_even && i % 2 == 0 {
+                    a.push(x);
+                } else {
+                    sub(&x, &mut touched);
+                }
+                i += 1;
+            }
+        }
         Op::AotPush(p) => {
             let t = get_mut(root, p);
             let K::Aot(a) = &mut t.k else { panic!() };
-            a.push(N { mark: None, k: K::Tab(vec![("z".to_string(), N::leaf("i1"))], false) });
+            a.push(N { mark: None, k: K::Tab(vec![("z".to_string(), N::leaf("i1"))], 0) });
         }
         Op::AotExtend3(p) => {
             let t = get_mut(root, p);
             let K::Aot(a) = &mut t.k else { panic!() };
             for z in 1..=3 {
-                a.push(N { mark: None, k: K::Tab(vec![("z".to_string(), N::leaf(&format!("i{}", z)))], false) });
+                a.push(N { mark: None, k: K::Tab(vec![("z".to_string(), N::leaf(&format!("i{}", z)))], 0) });
             }
         }
         Op::AotRemove(p, i) => {
@@ -582,20 +625,20 @@ fn apply_model(root: &mut N, op: &Op) -> BTreeSet<String> {
             let t = get_mut(root, p);
             sub(t, &mut touched);
             if let K::Inl(e) = &t.k {
-                t.k = K::Tab(e.clone(), false);
+                t.k = K::Tab(e.clone(), 0);
             }
         }
         Op::IntoAot(p) => {
             let t = get_mut(root, p);
             sub(t, &mut touched);
             if let K::Arr(a) = &t.k {
-                t.k = K::Aot(a.iter().map(|x| match &x.k { K::Inl(e) => N { mark: x.mark.clone(), k: K::Tab(e.clone(), false) }, _ => x.clone() }).collect());
+                t.k = K::Aot(a.iter().map(|x| match &x.k { K::Inl(e) => N { mark: x.mark.clone(), k: K::Tab(e.clone(), 0) }, _ => x.clone() }).collect());
             }
         }
     }
     // an edit inside an inline table or array rewrites the line(s) of the enclosing value: those markers may change
     let p: &Path = match op {
-        Op::Insert(p, ..) | Op::EntryOrInsert(p, ..) | Op::IndexAssign(p, ..) | Op::Remove(p, ..) | Op::SortValues(p) | Op::Fmt(p) | Op::ArrPush(p, ..) | Op::ArrInsert(p, ..) | Op::ArrReplace(p, ..) | Op::ArrRemove(p, ..) | Op::AotPush(p) | Op::AotExtend3(p) | Op::AotRemove(p, ..) | Op::IntoInline(p) | Op::IntoTable(p) | Op::MakeValue(p) | Op::IntoAot(p) => p,
+        Op::Insert(p, ..) | Op::EntryOrInsert(p, ..) | Op::IndexAssign(p, ..) | Op::Remove(p, ..) | Op::SortValues(p) | Op::Fmt(p) | Op::ArrPush(p, ..) | Op::ArrInsert(p, ..) | Op::ArrReplace(p, ..) | Op::ArrRemove(p, ..) | Op::ArrRetainEven(p) | Op::ArrRetainNone(p) | Op::ArrClear(p) | Op::AotPush(p) | Op::AotExtend3(p) | Op::AotRemove(p, ..) | Op::IntoInline(p) | Op::IntoTable(p) | Op::MakeValue(p) | Op::IntoAot(p) => p,
     };
     let mut cur: &N = before;
     let mut chain: Vec<&N> = vec![cur];
@@ -668,6 +711,15 @@ fn apply_real(doc: &mut DocumentMut, op: &Op) {
         Op::ArrRemove(p, i) => {
             nav(doc, p).as_array_mut().expect("array").remove(*i);
         }
+        Op::ArrRetainEven(p) => {
+            let mut i = 0;
+            nav(doc, p).as_array_mut().expect("array").retain(|_| {
+                i += 1;
+                (i - 1) % 2 == 0
+            });
+        }
+        Op::ArrRetainNone(p) => nav(doc, p).as_array_mut().expect("array").retain(|_| false),
+        Op::ArrClear(p) => nav(doc, p).as_array_mut().expect("array").clear(),
         Op::AotPush(p) => {
             let mut t = Table::new();
             t.insert("z", toml_edit::value(1));
@@ -701,7 +753,9 @@ fn apply_real(doc: &mut DocumentMut, op: &Op) {
     }
 }
 
-pub const START_DOCS: [&str; 8] = [
+pub const START_DOCS: [&str; 10] = [
+    "tc = [ 1, 2, ] # @tc\nml = [\n  1 # @ml0\n  , 2 # @ml1\n  ,\n] # @ml\ne = [] # @e\n",
+    "opt.level.size = 1 # @opt.level.size\nopt.level.debug = 2 # @opt.level.debug\nopt.a = 3 # @opt.a\nb = 0 # @b\n[t] # @t\nz.y.x = 1 # @t.z.y.x\nz.y.a = 2 # @t.z.y.a\nz.b = 3 # @t.z.b\n",
     "# ^a\na = 1 # @a\nb = \"x\"   # @b\n# ^c\nc = [ 1, 2 ] # @c\nd = { x = 1, y = 2 } # @d\n",
     "top = 1 # @top\n\n[t] # @t\nx = 1 # @t.x\ny = 2 # @t.y\n\n  [t.sub] # @t.sub\n  z = 3 # @t.sub.z\n\n[u] # @u\n",
     "[[p]] # @p0\nn = 1 # @p0.n\n[[p.q]] # @p0.q0\nm = 1 # @p0.q0.m\n[[p]] # @p1\nn = 2 # @p1.n\n[other] # @other\nk = 1 # @other.k\n",
